@@ -54,7 +54,7 @@ def run_pdf(shard, ctx):
             tag = ("c13", kind, D, R)
             Sp = objs.spd_batch(D, R, vi, seed, tag + ("p",), diag=diag)
             mp_ = objs.vec_batch(D, R, vi, seed, tag + ("p",))
-            for prep, mkp, mu_e, Sig_e in objs.pdf_variants(kind, Sp, mp_, which=("fresh", "sliced_neg", "updated", "Sigma+Lambda+lndet", "replaced_mu", "prod_conjugate", "conditioned", "prod_linear", "prod_constant", "hadamard_onerank", "multiply_onerank", "joint_of_cond") if vi == 0 else ("fresh",)):
+            for prep, mkp, mu_e, Sig_e in objs.pdf_variants(kind, Sp, mp_, which=("fresh", "sliced_neg", "updated", "Sigma+Lambda+lndet", "replaced_mu", "prod_conjugate", "conditioned", "prod_linear", "prod_constant", "hadamard_onerank", "multiply_onerank", "joint_of_cond", "hadamard_linear_bcast", "hadamard_linear_bcast>marginal", "hadamard_linear_bcast>slice") if vi == 0 else ("fresh",)):
               if ctx.case(dict(what="entropy", R=R, vi=vi, prep=prep)):
                 with ctx.guard("entropy.call", dict(prep=prep)):
                     p = mkp()
@@ -115,7 +115,7 @@ def run_cond(shard, ctx):
     R = Rc * Rx
     vis = _affine.value_indices(tier, shard) + (["M0"] if kind in ("full", "diag", "nncontrol") else [])
     for vi, ctor in [(v, c) for v in vis for c in _affine.ctors_for(kind)]:
-        if ctor != "Sigma" and vi != 0:
+        if ctor != "Sigma" and vi not in (0, 100):
             continue
         if not ctx.case(dict(vi=vi, ctor=ctor)):
             continue
@@ -132,7 +132,7 @@ def run_cond(shard, ctx):
         Sx = objs.spd_batch(Dx, Rx, v + 1, seed, tag + ("Sx",), diag=(pxk == "GaussianDiagPDF"))
         mx = objs.vec_batch(Dx, Rx, v, seed, tag + ("mx",))
         cond, kw, (M, b, Sy) = objs.mk_cond(kind, M, b, Sy, ctor=ctor)
-        p_x = objs.mk_pdf(pxk, Sx, mx)
+        p_x = objs.mk_pdf(pxk, Sx, mx, mode=_affine.PX_MODE.get(ctor, "Sigma"))
         facts = dict(M_is_zero=zero, ctor=ctor)
         if vi == 100 and Dx >= 2 and ctor == "Sigma":
             # the prior is itself the joint produced by another linear conditional (its own effective moments are the reference)
